@@ -17,7 +17,7 @@ from . import common
 from .common import log, ToolError
 
 EXE = "pvh_pipeline"
-RUN_FORMAT = 16     # bump when the way cases are assembled / rendered in this file changes
+RUN_FORMAT = 17     # bump when the way cases are assembled / rendered in this file changes
 THREADS = os.environ.get("PVH_THREADS", "6")
 TLC_WORKERS = int(os.environ.get("PIPELINE_TLC_WORKERS", "4"))
 
@@ -537,6 +537,33 @@ def _render_target(cell):
     return [{"name": "target.pn", "src": src}], bool(cell["wasm"])
 
 
+def _render_constdiv(cell):
+    op, ty, use = cell["op"], cell["ty"], cell["use"]
+    top = "const BAD: %s = 4 %s 0;\n" % (ty, op)
+    body = {"value": "\tvar v: %s = BAD;\n" % ty,
+            "length": "\tvar a: [BAD]i32;\n" if ty == "usize" else "\tvar a: [4]%s = [BAD, BAD, BAD, BAD];\n" % ty,
+            "unused": "",
+            "operand": "\tvar v: %s = BAD + 1;\n" % ty,
+            "member": "\tvar s: Holder = Holder { value: BAD };\n"}[use]
+    if use == "member":
+        top += "struct Holder\n{\n\tvalue: %s,\n}\n" % ty
+    return top + "fn main() -> i32\n{\n" + body + "\treturn: 0\n}\n"
+
+
+def _render_opaque(cell):
+    use = cell["use"]
+    top = "struct Owner;\n"
+    fn = {"literal": "fn main() -> i32\n{\n\tvar o = Owner {};\n\treturn: 0\n}\n",
+          "variable": "fn main() -> i32\n{\n\tvar o: Owner;\n\treturn: 0\n}\n",
+          "sizeof": "fn main() -> usize\n{\n\treturn: |:Owner|\n}\n",
+          "parameter": "fn take(o: Owner)\n{\n}\nfn main() -> i32\n{\n\treturn: 0\n}\n",
+          "pointer": "extern fn make() -> &Owner;\nextern fn drop(o: &Owner);\nfn main() -> i32\n{\n\tvar o: &Owner = make();\n\tdrop(&o);\n\treturn: 0\n}\n",
+          "member": "struct Holder\n{\n\towner: Owner,\n\tn: i32,\n}\nfn main() -> i32\n{\n\treturn: 0\n}\n",
+          "element": "fn main() -> i32\n{\n\tvar os: [2]Owner;\n\treturn: 0\n}\n",
+          "return": "fn make() -> Owner;\nfn main() -> i32\n{\n\treturn: 0\n}\n"}[use]
+    return top + fn
+
+
 def render_shape(case, idx):
     """A cell of spec/PipelineShapes.tla -> source text"""
     cell, exp = case["cell"], case["expect"]
@@ -554,6 +581,12 @@ def render_shape(case, idx):
             raise ToolError("size cell %s rendered as %d bytes" % (json.dumps(cell), len(src.encode())))
         mods = [{"name": "size.pn", "src": src}]
         origin = "size %s/%d" % (cell["pad"], cell["size"])
+    elif fam == "constdiv":
+        mods = [{"name": "constdiv.pn", "src": _render_constdiv(cell)}]
+        origin = "constdiv %s %s/%s" % (cell["op"], cell["ty"], cell["use"])
+    elif fam == "opaque":
+        mods = [{"name": "opaque.pn", "src": _render_opaque(cell)}]
+        origin = "opaque %s" % cell["use"]
     elif fam == "target":
         mods, wasm = _render_target(cell)
         origin = "target %s %s/%s%s%s" % (cell["what"], cell["a"], cell["b"], "/" + cell["place"] if "place" in cell else "", "/wasm" if wasm else "")
